@@ -11,7 +11,8 @@ from koala.graph_utils import remove_vertices, remove_trailing_edges, reorder_ve
 
 DRIVERS = ("c12", "lat")
 MODEL_TARGETS = ["Model/Lattice.vo", "Model/Surgery.vo"]
-TARGETS = ["Proofs/SurgeryFacts.vo", "Proofs/SurgeryTrailing.vo", "Proofs/SurgeryPerm.vo", "Proofs/SurgeryEquivariant.vo"]
+TARGETS = ["Proofs/SurgeryFacts.vo", "Proofs/SurgeryTrailing.vo", "Proofs/SurgeryPerm.vo", "Proofs/SurgeryEquivariant.vo",
+           "Proofs/SurgeryPersistLists.vo", "Proofs/SurgeryPersistGeom.vo", "Proofs/SurgeryPersist.vo"]
 LEVEL = "proof"
 TRUST = [
     "hand-written Gallina model coq/Model/Surgery.v of cut_boundaries, remove_vertices, remove_trailing_edges, permute_vertices, reorder_vertices "
@@ -604,6 +605,60 @@ def evaluate(ctx, cases, label, plaquette_budget=None):
             if nontriv:
                 res.sample({"case": one, "V": len(pos), "E": len(edges), "out_V": len(out[0]), "out_E": len(out[1]),
                             "report": rep[:10] if rep else rep})
+    if label.startswith("K("):
+        coq_crosscheck(ctx, built, outs)     # extraction cross-check: a sample of the driver's answers re-derived inside Coq
+
+
+def coq_crosscheck(ctx, built, outs, max_v=40):
+    """Extraction cross-check (DESIGN 1.3): for a small random sample of the lattices sent to the c12 driver (V <= 40) and a few
+    operations of every kind on each, the driver's answer (output lattice arrays, removed-edge report, survivor lists, ERR) is
+    re-derived INSIDE Coq by vm_compute on the same lattice and operation literals and must coincide."""
+    import xcheck as X
+    quick = ctx.tier == "quick"
+    rng = np.random.default_rng([ctx.seed, 12, 99])
+    small = [i for i, ((c, (pos, edges, cr), S), o) in enumerate(zip(built, outs)) if "error" not in o and 4 <= len(pos) <= max_v]
+    idx = sorted(rng.choice(small, size=min(len(small), 6 if quick else 60), replace=False).tolist()) if small else []
+    nl = X.natlist
+    lat3 = lambda t: f"({X.lst(X.zpair, t[0])}, {X.lst(X.natpair, t[1])}, {X.lst(X.zpair, t[2])})"
+    body = [
+        "Definition lat3 (L : lattice) := (pos L, edges L, crossing L).",
+        # FUEL / BADINDEX / the lattice, as the driver prints the three cases of remove_trailing_edges
+        "Definition trail3 (L : lattice) := match remove_trailing_edges L with",
+        "  | TrailOutOfFuel => inl 0%nat | TrailBadIndex => inl 1%nat | TrailDone L' => inr (lat3 L') end.",
+    ]
+    g = lambda lhs, rhs: body.append(X.goal(lhs, rhs))
+    n_ops = {}
+    for n, i in enumerate(idx):
+        (c, (pos, edges, cr), S), o = built[i], outs[i]
+        L = f"L{n}"
+        body.append(f"Definition {L} : lattice := {X.lattice(pos, edges, cr, S)}.")
+        g(f"(wf_lattice {L}, no_self_loops {L})", f"({X.boolean(o['wf'][0] == '1')}, {X.boolean(o['noloops'][0] == '1')})")
+        by_kind = {}
+        for j, op in enumerate(c["ops"]):
+            by_kind.setdefault(op["op"], []).append(j)
+        for k, js in by_kind.items():
+            for j in sorted(rng.choice(js, size=min(len(js), 2), replace=False).tolist()):
+                op, toks = c["ops"][j], o[f"o{j}"]
+                m = parse_op(toks, op)
+                if k == "cut":
+                    g(f"lat3 (cut_boundaries {L} {X.boolean(op['b'][0])} {X.boolean(op['b'][1])})", lat3(m["lat"]))
+                elif k == "rmv":
+                    g(f"option_map (fun r => (lat3 (fst r), snd r)) (remove_vertices {L} {nl(op['idx'])})",
+                      "None" if "err" in m else f"Some ({lat3(m['lat'])}, {nl(m['rep'])})")
+                elif k == "trail":
+                    if m.get("err") == "FUEL":
+                        continue      # printed for two different model outcomes; not told apart here
+                    g(f"trail3 {L}", "inl 1%nat" if "err" in m else f"inr {lat3(m['lat'])}")
+                    if "err" not in m:
+                        g(f"trailing_survivors {L}", f"Some ({nl(m['kv'])}, {nl(m['ke'])})")
+                else:
+                    f, arg = ("permute_vertices", op["ord"]) if k == "perm" else ("reorder_vertices", op["perm"])
+                    g(f"option_map lat3 ({f} {L} {nl(arg)})", "None" if "err" in m else f"Some {lat3(m['lat'])}")
+                n_ops[k] = n_ops.get(k, 0) + 1
+    res = ctx.res
+    res.extra["extraction_crosscheck_goals_vm_compute"] = X.compile_goals("c12", "Model.Lattice Model.Surgery", body, "c12")
+    res.extra["extraction_crosscheck_cases"] = dict(n_ops, lattices=len(idx))
+    res.extra["extraction_crosscheck_wall_s"] = X.LAST_WALL
 
 
 SMALL_FAMILIES = ("edge_subset", "relabel", "face_last")
